@@ -850,6 +850,27 @@ fn fixed_scenarios(st: &mut Stats) {
             }),
         }
     }
+    // an imported module may have a `start` of its own: the program still begins at the main file's `start`
+    {
+        let mut f4 = Files::new();
+        f4.insert("game.sy".into(), "start :: fn do\n    print(\"game\")\nend\n\nscore :: 3\n".into());
+        f4.insert("sub/engine.sy".into(), "start :: fn do\n    print(\"engine\")\nend\n".into());
+        f4.insert(
+            "main.sy".into(),
+            "use game\nfrom sub/engine use start as boot\n\nhooks :: [boot]\n\nstart :: fn do\n    print(\"main\")\n    game.start()\n    list.for_each(hooks, fn h: fn -> void do\n        h()\n    end)\n    print(game.score)\nend\n".into(),
+        );
+        let expect: Vec<String> = ["main", "game", "engine", "3"].iter().map(|s| s.to_string()).collect();
+        st.count("fixed_scenarios_run");
+        match behaviour(&f4, "main.sy") {
+            Behaviour::Ran { prints, outcome, .. } if prints == expect && outcome == "ok" => st.count("fixed_scenarios_as_expected"),
+            other => st.violation(Violation {
+                signature: "modules:entry-point-is-not-the-main-file's-start".into(),
+                hazard: None,
+                case: 0,
+                detail: J::obj().with("expected", J::Arr(expect.iter().map(|s| J::s(s.clone())).collect())).with("behaviour", J::s(format!("{:?}", other).chars().take(800).collect::<String>())).with("files", J::Obj(f4.iter().map(|(k, v)| (k.clone(), J::s(v.clone()))).collect())),
+            }),
+        }
+    }
     // two imports may not bind one name to different modules (the second one must not be dropped silently)
     files.insert("net/utils.sy".into(), "name :: \"net\"\n".into());
     files.insert("ui/utils.sy".into(), "name :: \"ui\"\n".into());
